@@ -44,6 +44,7 @@ func runC16(c *core.Ctx) {
 	c16Range(c, pkg)
 	c16Render(c, pkg)
 	c16ProbeRules(c, pkg)
+	c16TickPhase(c, pkg)
 	c16Ticker(c, pkg)
 	c16DBRPs(c, pkg)
 }
